@@ -139,17 +139,18 @@ FAMILIES["stream"] = {
 }
 
 FAMILIES["probe"] = {
-    "name": "probe", "props": ["C19"], "models": "Probe.v",
+    "name": "probe", "props": ["C19", "C03"], "models": "Probe.v",
     "harness": COMMON + ["zz_vf_wire_test.go", "zz_vf_sites_test.go", "zz_vf_probe_test.go"], "test": "TestVfProbe",
     "n": {"quick": 800, "thorough": 150000}, "no_shrink": True,
-    "codes": [(400, 409, ["C19"])],
+    "codes": [(400, 408, ["C19"]), (409, 409, ["C03", "C19"])],
     "code_names": {1: "undecodable case",
                    400: "C19: health score left [0, max-1]", 401: "C19: pending-probe record still registered after its deadline",
                    402: "C19: probe verdict differs from 'a matching ack arrived before the deadline (or the TCP fallback round-tripped)'",
                    403: "C19: health score moved by another amount than the probe outcome prescribes",
                    404: "C19: relayed ack does not carry the requester's sequence number", 405: "C19: relay reused the requester's sequence number",
                    406: "C19: relay sent more than one ack / nack, or both", 407: "C19: relay outcome differs from the model",
-                   408: "C19: an ack / nack for a number nobody awaits a nack for made the packet handler panic"},
+                   408: "C19: an ack / nack for a number nobody awaits a nack for made the packet handler panic",
+                   409: "C03/C19: one probe kept the sequential probe loop busy for longer than its awareness-scaled interval (a dial / wait that ignores the probe deadline)"},
     "assumptions": ["arrivals never coincide with the probe timeout or deadline (odd microsecond offsets): equal-instant ordering is scheduler dependent",
                     "random peer selection (kRandomNodes) enters through what the transport observed"],
 }
@@ -178,6 +179,8 @@ FAMILIES["cluster"] = {
                    61: "probe cursor: the node list was reordered without a wrap", 62: "probe cursor: the model selects nobody but the implementation probed",
                    520: "C05: views did not converge within the settling time although the fresh-alive graph was connected when faults stopped",
                    522: "C05: a node holds a record of a member at an incarnation above every counter that member ever reached (C05_claims_below_owner / C05_claims_below_history)",
+                   523: "C05: a stream write to an unresponsive host was still blocked long after every deadline (the periodic push/pull goroutine of that node is stuck: its anti-entropy has stopped)",
+                   536: "C03: a stream write to an unresponsive host was still blocked long after every deadline (the probe's TCP fallback never returns: that node's failure detector has stopped)",
                    521: "C05: views did not converge; the live nodes were connected through member lists but not through fresh Alive records (D-C05)",
                    530: "C03: a survivor that listed the crashed member delivered no leave event within the bound",
                    531: "C03: a survivor still lists the crashed member at the end",
